@@ -44,6 +44,143 @@ SHARED = [
 ]
 
 
+# a third alphabet on its own engine: the resolver reports the arguments it received and then *modifies them in place* (they are its
+# own); whatever the engine keeps between requests (SDL defaults, variable defaults, cached documents) must not be affected
+MUT_SDL = """
+input P { a: Int = 1 l: [Int] = [1, 2] q: P }
+scalar Tag
+type Query { f(p: P = {a: 5, l: [7]}, xs: [Int] = [1]): String e(t: Tag, n: Int, p: P): String }
+"""
+# a fourth alphabet: the caller passes ONE variables object to every request of the history (undeclared extras are ignored, so this
+# is legal); coerced values and defaults of one request must not be written into it
+VARS_ALPHABET = [
+    ("custom-scalar", "query($t: Tag) { e(t: $t) }"),
+    ("default-1", "query($t: Tag, $n: Int = 1) { e(t: $t, n: $n) }"),
+    ("default-2", "query($n: Int = 2, $p: P = {a: 3}) { e(n: $n, p: $p) }"),
+    ("no-default", "query($n: Int, $p: P) { e(n: $n, p: $p) }"),
+    ("input-object", "query($q: P) { e(p: $q) }"),
+]
+SHARED_VARS = {"t": "tg", "q": {"l": [5]}}
+MUT_ALPHABET = [
+    ("sdl-default", "{ f }", None),
+    ("literal-object", "{ f(p: {a: 2}) }", None),
+    ("literal-nested", "{ f(p: {q: {l: [3]}}, xs: [4]) }", None),
+    ("variable-default", "query($p: P = {a: 3}, $xs: [Int] = [6]) { f(p: $p, xs: $xs) }", None),
+    ("variable-value", "query($p: P, $xs: [Int]) { f(p: $p, xs: $xs) }", {"p": {"a": 4}, "xs": [8]}),
+    ("variable-in-literal", "query($l: [Int] = [9]) { f(p: {l: $l}) g: f(p: {l: $l}) }", None),
+]
+
+
+def _scribble(v):
+    if isinstance(v, dict):
+        for x in list(v.values()):
+            _scribble(x)
+        v["scribbled"] = True
+    elif isinstance(v, list):
+        for x in v:
+            _scribble(x)
+        v.append(42)
+
+
+def make_mut_engine(config):
+    from tartiflette import Resolver, create_engine
+    name = harness.fresh_name("c16m")
+
+    @Resolver("Query.f", schema_name=name)
+    async def f(parent, args, ctx, info):
+        r = json.dumps(args, sort_keys=True)
+        _scribble(args)
+        return r
+
+    @Resolver("Query.e", schema_name=name)
+    async def e(parent, args, ctx, info):
+        return json.dumps(args, sort_keys=True)
+
+    from tartiflette import Scalar
+    Scalar("Tag", schema_name=name)(harness.TagScalar())
+    kw = {"query_cache_decorator": None} if config == "disabled" else {}
+    return harness.run(create_engine(MUT_SDL, schema_name=name, **kw)), name
+
+
+def run_shared_variables(tier):
+    out = {"counts": {"histories": 0, "requests": 0, "nontrivial": 0}, "tables": {}, "sets": {}, "samples": [], "violations": [],
+           "machinery": []}
+    ref = {}
+    for label, text in VARS_ALPHABET:
+        eng, name = make_mut_engine("disabled")
+        ref[label] = norm(harness.run(eng.execute(text, variables=json.loads(json.dumps(SHARED_VARS)))))
+        drop(name)
+        if '"errors": []' not in ref[label]:
+            out["machinery"].append("shared-variables request %s does not run: %s" % (label, ref[label][:300]))
+    depth = 3 if tier == "quick" else 4
+    for hist in itertools.product(range(len(VARS_ALPHABET)), repeat=depth):
+        for config in ("default", "disabled"):
+            eng, name = make_mut_engine(config)
+            variables = json.loads(json.dumps(SHARED_VARS))  # one object for the whole history
+            for pos, li in enumerate(hist):
+                label, text = VARS_ALPHABET[li]
+                try:
+                    got = norm(harness.run(eng.execute(text, variables=variables)))
+                except Exception as e:  # noqa
+                    got = "RAISED " + repr(e)
+                out["counts"]["requests"] += 1
+                if got != ref[label]:
+                    labels = [VARS_ALPHABET[i][0] for i in hist[:pos + 1]]
+                    out["violations"].append({
+                        "signature": "response-changed-by-history|caller-variables-object-reused|%s" % label,
+                        "summary": "cache=%s history=%r with one variables object %r: response #%d is %s but a fresh engine answers %s" % (
+                            config, labels, SHARED_VARS, pos, got[:400], ref[label][:400]),
+                        "replay": {"variables_history": list(hist[:pos + 1]), "config": config}})
+                    break
+            out["counts"]["histories"] += 1
+            drop(name)
+    out["samples"].append({"one_variables_object_alphabet": [l[0] for l in VARS_ALPHABET], "length": depth})
+    return out
+
+
+def ask_mut(engine, letter):
+    label, text, variables = letter
+    try:
+        return norm(harness.run(engine.execute(text, variables=json.loads(json.dumps(variables)))))
+    except Exception as e:  # noqa
+        return "RAISED " + repr(e)
+
+
+def run_mutating(tier, first=None):
+    out = {"counts": {"histories": 0, "requests": 0, "nontrivial": 0}, "tables": {}, "sets": {}, "samples": [], "violations": [],
+           "machinery": []}
+    ref = {}
+    for letter in MUT_ALPHABET:
+        eng, name = make_mut_engine("disabled")
+        ref[letter[0]] = ask_mut(eng, letter)
+        drop(name)
+        if '"errors"' in ref[letter[0]] and '"errors": []' not in ref[letter[0]]:
+            out["machinery"].append("mutating-alphabet request %s does not run: %s" % (letter[0], ref[letter[0]][:300]))
+    depth = 3 if tier == "quick" else 4
+    for hist in itertools.product(range(len(MUT_ALPHABET)), repeat=depth):
+        if first is not None and hist[0] != first:
+            continue
+        for config in ("default", "disabled"):
+            eng, name = make_mut_engine(config)
+            for pos, li in enumerate(hist):
+                letter = MUT_ALPHABET[li]
+                got = ask_mut(eng, letter)
+                out["counts"]["requests"] += 1
+                if got != ref[letter[0]]:
+                    labels = [MUT_ALPHABET[i][0] for i in hist[:pos + 1]]
+                    out["violations"].append({
+                        "signature": "response-changed-by-history|argument-values-shared-between-requests|%s" % letter[0],
+                        "summary": "cache=%s history=%r (the resolver modifies the argument values it received): response #%d is %s but a fresh "
+                                   "engine answers %s" % (config, labels, pos, got[:400], ref[letter[0]][:400]),
+                        "replay": {"mutating_history": list(hist[:pos + 1]), "config": config}})
+                    break
+            out["counts"]["histories"] += 1
+            drop(name)
+    if not first:
+        out["samples"].append({"argument_modifying_alphabet": [l[0] for l in MUT_ALPHABET], "length": depth})
+    return out
+
+
 class SpyLRU:
     """a custom cache decorator (capacity 2) that exposes its keys, hits and evictions"""
 
@@ -125,12 +262,16 @@ def reference():
 
 def shards(tier, seed):
     n = len(ALPHABET)
-    return [(a, b, tier) for a in range(n) for b in range(n)] + [("shared", tier)]
+    return [(a, b, tier) for a in range(n) for b in range(n)] + [("shared", tier), ("variables", tier)] + [("mutating", tier, k) for k in range(len(MUT_ALPHABET))]
 
 
 def run_shard(item):
     if item[0] == "shared":
         return run_shared(item[1])
+    if item[0] == "variables":
+        return run_shared_variables(item[1])
+    if item[0] == "mutating":
+        return run_mutating(item[1], item[2])
     a, b, tier = item
     k = DEPTH[tier]
     ref = reference()
@@ -210,7 +351,11 @@ def finish(agg, tier):
                 "(valid A, failing B, A with other variables, the two operations of one document, validation-invalid, syntax error, bytes "
                 "spelling of A) x %d cache configurations (default LRU 512, lru_cache(1), lru_cache(2), key-exposing LRU(2), disabled), "
                 "each from a freshly cooked engine; every response compared with a fresh cache-less engine's. non-trivial = histories "
-                "(key-exposing cache) with at least one cache hit AND one eviction" % (DEPTH[tier], len(ALPHABET), len(CONFIGS)),
+                "(key-exposing cache) with at least one cache hit AND one eviction. Plus all length-3 histories over 4 requests raising one shared "
+                "exception object, and all length-%d histories over %d requests whose resolver modifies the argument values it received "
+                "(SDL default, literal, nested literal, variable default, variable value, variable inside a literal), cache on / off, "
+                "and over %d requests that are all given ONE variables object"
+                % (DEPTH[tier], len(ALPHABET), len(CONFIGS), 3 if tier == "quick" else 4, len(MUT_ALPHABET), len(VARS_ALPHABET)),
         "distinct_cache_states_observed": len(agg.sets.get("spy_states", ())),
         "distinct_cache_state_request_transitions": len(agg.sets.get("spy_transitions", ())),
         "exhaustive": True,
@@ -220,6 +365,23 @@ def finish(agg, tier):
 def replay(rec):
     r = rec["replay"]
     ref = reference()
+    if "variables_history" in r:
+        out = run_shared_variables("quick")["violations"]
+        return [v for v in out if v["replay"]["variables_history"] == r["variables_history"] and v["replay"]["config"] == r["config"]][:1]
+    if "mutating_history" in r:
+        refs = {}
+        for letter in MUT_ALPHABET:
+            eng, name = make_mut_engine("disabled")
+            refs[letter[0]] = ask_mut(eng, letter)
+            drop(name)
+        eng, name = make_mut_engine(r["config"])
+        out = []
+        for pos, li in enumerate(r["mutating_history"]):
+            got = ask_mut(eng, MUT_ALPHABET[li])
+            if got != refs[MUT_ALPHABET[li][0]]:
+                out.append({"summary": "position %d (%s): %s vs fresh %s" % (pos, MUT_ALPHABET[li][0], got[:400], refs[MUT_ALPHABET[li][0]][:400])})
+        drop(name)
+        return out
     if "shared_history" in r:
         eng, name, spy = make_engine(r["config"])
         harness.fresh_shared_errors()
